@@ -580,8 +580,13 @@ func (c *Ctx) rematchMoved() {
 	strip := func(k string) string {
 		if i := strings.LastIndex(k, "#"); i > 0 {
 			if _, err := strconv.Atoi(k[i+1:]); err == nil {
-				return k[:i]
+				k = k[:i]
 			}
+		}
+		// "recursion on the elements of X through <the routine it goes through>": the route is named
+		// after functions, which move and are renamed; the construct is the recursion on X
+		if i := strings.Index(k, " through "); i > 0 {
+			k = k[:i]
 		}
 		return k
 	}
